@@ -19,6 +19,7 @@ func init() {
 			ID: "C20",
 			Explanation: "Two clauses are decided over ALL inputs: (1) the error-type allow-list is exact: the pattern the sanitiser really uses (read from the call site, following a package-level compiled regexp to its initialiser) accepts, with MatchString's substring-search semantics, exactly the language of ^(Runtime|Function)\\.[A-Z][a-zA-Z]+$ - decided by exploring the product of the two subset automata over a rune-class alphabet, with a shortest distinguishing string reported otherwise - and the fallback maps a 'Function.' prefix to Function.Unknown and everything else to Runtime.Unknown; " +
 				"(2) every non-nil X-Ray cause returned with a nil error is dominated by a size test 'len(v) <= 64 KiB' on that very value (including the worst-case crop). Also decided: sanitiser coverage (every read of the error-type header flows only into the sanitiser, every FunctionError built in the handlers takes its type from the sanitiser or a platform constant, both cause sources pass the validator before being stored), invalid or field-less causes are errors, error bodies are the bytes read from the request, and the runtime identity string's budget is consistent (limit 128, the accounted prefix is the emitted one, separators accounted) with appends guarded by the remaining budget and an identity that ends in ')' never extended. " +
+				"Added after the blind rounds: a cropped field is computed from that same field. " +
 				"NOT decided: that cropped fields are prefixes of the originals beyond the shape of cropString; the <= 128 arithmetic itself (a linear invariant, not derived).",
 			RuleText:    "one obligation for the language equivalence (states of the product automaton explored are reported), one per exit of the two size-bounded functions, per header read, per FunctionError literal, per cause source, per budget constant/guard",
 			Assumptions: append([]string{"regexp/syntax compiles the pattern as package regexp does; only begin/end-of-text assertions occur (anything else makes the check fail rather than guess)"}, trusted...),
